@@ -243,7 +243,7 @@ class Ctx:
         race = kw.get("race", False)
         res = self.drv(family, args, **kw)
         res["partial"] = False
-        if res["rc"] in (3, 4) and os.path.exists(res["trace"]) and os.path.getsize(res["trace"]) > 0:
+        if res["rc"] in (3, 4, 5) and os.path.exists(res["trace"]) and os.path.getsize(res["trace"]) > 0:
             # the driver ran out of time; what it recorded is still a behaviour of the
             # real code: it is validated, and only if it is accepted the check is broken
             lines = open(res["trace"]).read().split("\n")
@@ -251,7 +251,7 @@ class Ctx:
                 lines = lines[:-1]
             open(res["trace"], "w").write("\n".join(l for l in lines if l) + "\n")
             res["partial"] = True
-            why = "ran out of time" if res["rc"] == 4 else "gave up: " + (res["stderr"].strip().splitlines() or ["?"])[-1][:300]
+            why = "ran out of time" if res["rc"] == 4 else "stopped a runaway start-up" if res["rc"] == 5 else "gave up: " + (res["stderr"].strip().splitlines() or ["?"])[-1][:300]
             self.partial = "driver %s %s (the partial trace was validated and accepted)" % (family, why)
             self.step("drv", family=family, args=list(args), wall_s=res["wall_s"], partial=True)
             return res
